@@ -391,10 +391,10 @@ def kind_to_idents(matches, key, name):
     return "Definition %s (k : kind) : list string :=\n  match k with\n%s\n  end.\n" % (name, body), table
 
 
-STUBS = {"kind": "Definition %s (s : string) : option kind := None.\n",
-         "tag": "Definition %s (s : string) : option string := None.\n",
-         "kstr": "Definition %s (k : kind) : string := \"\".\n",
-         "kids": "Definition %s (k : kind) : list string := [].\n"}
+STUBS = {"kind": "Definition %s (s : string) : option kind := stub_opt s.\n",
+         "tag": "Definition %s (s : string) : option string := stub_opt s.\n",
+         "kstr": "Definition %s (k : kind) : string := stub_str k.\n",
+         "kids": "Definition %s (k : kind) : list string := stub_list k.\n"}
 
 # the properties whose model depends directly on a table (a table that cannot be regenerated is a broken translator
 # obligation for them; the other properties see a stub and are decided by their own proofs and correspondence runs)
